@@ -47,3 +47,5 @@ package bundler
 //@ flow loader-value-provenance C02: func=parseFile ; in=bundler ; site=store EString.Value ; valuepath=call StringToUTF16(source.Contents)|call StringToUTF16(call EncodeToString(base64.StdEncoding,source.Contents))|call StringToUTF16(phi:url)|call StringToUTF16(call Sprintf("%sA%08d",[args.uniqueKeyPrefix,args.sourceIndex])+source.KeyPath.IgnoredSuffix)
 // the data URL itself is the encoder's output for these contents, optionally followed by the preserved fragment
 //@ flow dataurl-provenance C02: func=parseFile ; in=bundler ; site=call EncodeStringAsShortestDataURL ; argpath=1:source.Contents
+
+//@ protect runtime-ast-cache C20 C08: type=runtimeCache ; fields=astMap ; mutex=astMutex ; in=bundler
